@@ -7,7 +7,7 @@ use crdts::orswot::{Op, Orswot};
 use crdts::{CmRDT, CvRDT, Dot, VClock};
 use std::collections::{BTreeMap, BTreeSet, HashSet};
 
-type O = Orswot<u8, u8>;
+pub type O = Orswot<u8, u8>;
 static STOP: std::sync::atomic::AtomicBool = std::sync::atomic::AtomicBool::new(false);
 
 /// denotation: members present and their witness clocks, from the set of applied ops
@@ -30,7 +30,7 @@ fn den(ops: &[Op<u8, u8>]) -> (BTreeMap<u8, u64>, BTreeMap<u8, BTreeMap<u8, u64>
     (clock, ent)
 }
 
-fn state(o: &O) -> (BTreeMap<u8, u64>, BTreeMap<u8, BTreeMap<u8, u64>>) {
+pub fn state(o: &O) -> (BTreeMap<u8, u64>, BTreeMap<u8, BTreeMap<u8, u64>>) {
     let clock: BTreeMap<u8, u64> = o.clock().dots.clone();
     let mut ent = BTreeMap::new();
     for m in o.read().val {
@@ -63,8 +63,8 @@ pub fn standin_orswot_iter(r: &mut Report) {
 
 /// enumerate programs: at each step some replica (actor = index+1) performs add(m) / rm(m) / add_all or
 /// receives an op / merges a peer.  Calls `f` on every reached configuration.
-fn gen_programs(depth: usize, f: &mut dyn FnMut(&Vec<O>, &Vec<Vec<Op<u8, u8>>>, &String)) { gen_programs_n(2, depth, f) }
-fn gen_programs_n(nrep: usize, depth: usize, f: &mut dyn FnMut(&Vec<O>, &Vec<Vec<Op<u8, u8>>>, &String) -> ()) {
+pub fn gen_programs(depth: usize, f: &mut dyn FnMut(&Vec<O>, &Vec<Vec<Op<u8, u8>>>, &String)) { gen_programs_n(2, depth, f) }
+pub fn gen_programs_n(nrep: usize, depth: usize, f: &mut dyn FnMut(&Vec<O>, &Vec<Vec<Op<u8, u8>>>, &String) -> ()) {
     fn rec(reps: Vec<O>, known: Vec<Vec<Op<u8, u8>>>, all_ops: Vec<Op<u8, u8>>, desc: String, depth: usize, f: &mut dyn FnMut(&Vec<O>, &Vec<Vec<Op<u8, u8>>>, &String)) {
         f(&reps, &known, &desc);
         if depth == 0 || STOP.load(std::sync::atomic::Ordering::Relaxed) { return; }
